@@ -76,6 +76,8 @@ def gen_client(rng, k, cfg, focus):
         pool = "abcXYZ09 .-_éü中文\U0001f600"
         user = "".join(rng.choice(pool) for _ in range(rng.choice([0, 1, 5, 20, 51, 60, 200])))
         computer = "".join(rng.choice(pool) for _ in range(rng.choice([0, 1, 15, 30, 51, 120])))
+        if rng.random() < 0.5:
+            process = "".join(rng.choice(pool) for _ in range(rng.choice([1, 12, 17, 20, 30, 49, 60]))) + rng.choice(["", ".exe"])
     run = {"beacon_id": bid, "user": user, "computer": computer, "process": process,
            "internal_ip": rng.choice([None, "10.1.2.3", "192.168.1.77"]), "arch": rng.choice([None, "x86", "x64"]),
            "high_integrity": rng.random() < 0.3, "pid": rng.choice([None, 4242])}
